@@ -502,6 +502,15 @@ fn run_case(ctx: &CaseCtx, stats: &mut Stats, out: &mut Vec<Violation>, harness:
             inputs_v.extend(inputs::stress(&alpha, foreign, &mut rng, plan.stress_n));
         }
     }
+    if let Ok(only) = std::env::var("VP_ONLY_INPUT") {
+        // replay mode: exactly one input, given as comma-separated code points
+        let w: Vec<char> = only
+            .split(',')
+            .filter(|x| !x.trim().is_empty())
+            .filter_map(|x| x.trim().parse::<u32>().ok().and_then(char::from_u32))
+            .collect();
+        inputs_v = vec![w];
+    }
     // dedupe
     let mut seen: HashSet<Vec<char>> = HashSet::new();
     inputs_v.retain(|w| seen.insert(w.clone()));
